@@ -3,6 +3,7 @@ import DarkluaModel.Rules.NoLocalFunction
 import DarkluaModel.Rules.FunctionToAssign
 import DarkluaModel.Rules.RemoveMethodCall
 import DarkluaModel.Rules.ConvertSquareRootCall
+import DarkluaModel.C16.Whole
 /-!
 # C16 — the optional refactoring rules preserve program behaviour: property theorems
 
@@ -15,11 +16,18 @@ Every statement is about the HOOK of the rule at one node, in every context: exa
 denotations (control outcome, values, whole state, trace). Where exact equality is false the
 reason is stated and is one of: (D) a defect of the rule (`_full_false` + `_partial` under a
 hypothesis); (A) only allocation order / captured-environment contents differ, unobservably —
-then the theorem states exactly which part of the state differs. The generic visitor theorem
-(`Shared/VisitorSound.lean`) lifts hooks that are exact for EVERY input (`HooksExact`); none of
-the five rules qualifies — each hook is exact only under one of the hypotheses below, or changes
-closure numbering / captured environments — so no whole-rule corollary is stated here and the
-whole-rule claim is carried by the execution oracle of the harness.
+then the theorem states exactly which part of the state differs.
+
+WHOLE-RULE theorems (observable outcome `Sem.runProgram` of every program satisfying a decidable
+syntactic hypothesis, all number systems / oracles / levels): `local_function_rule_refines` and
+`function_to_assign_rule_refines`, through stage 3 of the generic lifting
+(`Shared/VisitorSoundHeap.lean`: cells up to renumbering, closure environments up to dead names)
+and the guarded congruence family of `C16/Guard.lean` (hooks need to be sound on good inputs only).
+Not lifted: `group_local_assignment` (the merge is a statement-LIST step whose soundness in the heap
+relation needs a proof inside that relation: evaluation of the second initialisers commutes with
+the allocation of the first cells), `remove_method_call` (C16-F2; its literal-receiver part would
+need a hypothesis "no method call on an identifier", which excludes essentially every program),
+`convert_square_root_call` (C16-F3). For those the whole-rule claim is carried by the oracle.
 -/
 namespace DarkluaModel.C16
 open Sem Rules
@@ -142,6 +150,33 @@ example : NoLocalFunction.converts "f"
 example : NoLocalFunction.converts "f" (.mk [.mk "f" none] false none none [] [] (.mk [] (some (.ret [.var "f"])))) = true := by
   decide
 
+/-- **`local_function_rule_refines` (whole rule).** For every program in which no `local function f`
+has `f` among its own parameters (`Good nlfFlags`, decidable; type annotations ignored),
+`convert_local_function_to_assign` preserves the observable outcome. The excluded shape
+`local function f(f)` is converted by the rule too (correctly: see `local_function_lookups_agree`)
+but lies outside the lifting theorem (its dead sets are flow-insensitive). -/
+theorem local_function_rule_refines (b : Block) (hg : Guard.Good Whole.nlfFlags b = true)
+    {N : NumOps} (ρ : ExtOracle N) (n : Nat) (externs : List String) :
+    runProgram ρ n externs (NoLocalFunction.apply b) = runProgram ρ n externs b :=
+  Whole.local_function_rule_refines b hg ρ n externs
+
+/-- non-vacuity: `local function g(x) return x end  local function f(n) return f(n) end  return g(1)` —
+good, `g` is converted, the recursive `f` is not -/
+def nlfSample : Block :=
+  .mk [.localFn .loc "g" (.mk [.mk "x" none] false none none [] [] (.mk [] (some (.ret [.var "x"])))),
+       .localFn .loc "f" (.mk [.mk "n" none] false none none [] []
+         (.mk [] (some (.ret [.call (.var "f") none .tuple [.var "n"]]))))]
+    (some (.ret [.call (.var "g") none .tuple [.num 0]]))
+example : Guard.Good Whole.nlfFlags nlfSample = true := by decide
+example : NoLocalFunction.apply nlfSample =
+    .mk [.localAssign .loc [.mk "g" none] [.fn (.mk [.mk "x" none] false none none [] [] (.mk [] (some (.ret [.var "x"]))))],
+         .localFn .loc "f" (.mk [.mk "n" none] false none none [] []
+           (.mk [] (some (.ret [.call (.var "f") none .tuple [.var "n"]]))))]
+      (some (.ret [.call (.var "g") none .tuple [.num 0]])) := by
+  rfl
+example : Guard.Good Whole.nlfFlags
+    (.mk [.localFn .loc "f" (.mk [.mk "f" none] false none none [] [] (.mk [] none))] none) = false := by decide
+
 /-! ## convert_function_to_assignment -/
 
 /-- `function_to_assign_refines`, plain name: `function n(…)` is exactly `n = function(…)`. -/
@@ -189,6 +224,32 @@ example : (FunctionToAssign.processStatement
   simp [FunctionToAssign.processStatement, FunctionToAssign.convert, FunctionToAssign.target,
     FunctionToAssign.keysOf, FunctionToAssign.withSelf, erase]
 example : FunctionToAssign.keysOf [] (some "m") = ["m"] := rfl
+
+/-- **`function_to_assign_rule_refines` (whole rule).** For every program whose function statements
+have at most one key after the root identifier (`function f`, `function a.f`, `function a:m` with
+its implicit `self`; `Good ftaFlags`, decidable), `convert_function_to_assignment` preserves the
+observable outcome. Longer names (`function a.b.c`) differ from the assignment only in the order
+"allocate the closure / walk `a.b`", i.e. in closure NUMBERING when an `__index` handler on the path
+creates closures — renumbering of closures is not covered by the lifting theorem. -/
+theorem function_to_assign_rule_refines (b : Block) (hg : Guard.Good Whole.ftaFlags b = true)
+    {N : NumOps} (ρ : ExtOracle N) (n : Nat) (externs : List String) :
+    runProgram ρ n externs (FunctionToAssign.apply b) = runProgram ρ n externs b :=
+  Whole.function_to_assign_rule_refines b hg ρ n externs
+
+/-- non-vacuity: `local t = {}  function t:m(x) return self end  function g() end` -/
+def ftaSample : Block :=
+  .mk [.localAssign .loc [.mk "t" none] [.table []],
+       .function ["t"] (some "m") (.mk [.mk "x" none] false none none [] [] (.mk [] (some (.ret [.var "self"])))),
+       .function ["g"] none (.mk [] false none none [] [] (.mk [] none))] none
+example : Guard.Good Whole.ftaFlags ftaSample = true := by decide
+example : FunctionToAssign.apply ftaSample =
+    .mk [.localAssign .loc [.mk "t" none] [.table []],
+         .assign [.field (.var "t") "m"]
+           [.fn (.mk [.mk "self" none, .mk "x" none] false none none [] [] (.mk [] (some (.ret [.var "self"]))))],
+         .assign [.var "g"] [.fn (.mk [] false none none [] [] (.mk [] none))]] none := by
+  rfl
+example : Guard.Good Whole.ftaFlags
+    (.mk [.function ["a", "b", "c"] none (.mk [] false none none [] [] (.mk [] none))] none) = false := by decide
 
 /-! ## remove_method_call -/
 
